@@ -19,6 +19,13 @@ fn size_family() -> Vec<String> {
     .iter()
     .map(|s| s.to_string())
     .collect();
+    // the same limits under a case-insensitive flag (the limit is on the bytes of the text as written)
+    for t in ["(?i)<a:16384>", "(?i)<a:16385>", "(?i)<a:32768>", "(?i)<a:65535>", "(?i)<a:65536>", "<(?i)a:16384>", "<(?i)a:65535>", "(?i)<ab/:8000>", "(?i)<é:20000>", "(?i)<é:32768>", "(?-i)<a:65535>", "(?i)<1:65535>", "(?i)x<a:65534>", "{(?i)<a:20000>,b}"] {
+        v.push(t.to_string());
+    }
+    v.push(format!("(?i){}", "a".repeat(20000)));
+    v.push(format!("(?i){}", "a".repeat(65535)));
+    v.push(format!("(?i){}", "a".repeat(65536)));
     v.push("a".repeat(65535));
     v.push("a".repeat(65536));
     v.push(format!("{}/{}", "a".repeat(40000), "b".repeat(30000)));
